@@ -79,9 +79,19 @@ def check(ctx):
     COND, COMB, PER = main[0][1], main[0][2], main[0][3]
     # ---- R1 -----------------------------------------------------------------------------------------
     T = ("call", ("global", "min"), (("const", 10), ncal), ())
+    # which branch is the fallback (the one that concatenates two fits) is read from the branches, not from their order; the test is
+    # then normalised to "fallback iff <smallest count> < <threshold>". Complementing an ordering comparison is exact here: the counts
+    # are integers (R1.counts: a size per group, missing = 0), never NaN
+    _has_concat = lambda t_: any(x[0] == "call" and x[1][0] == "global" and x[1][1].endswith("concat") for x in ir.walk(t_))  # noqa: E731
     CN = COND
-    if CN[0] == "cmp" and CN[1] == ">":  # `min(10, n) > counts.min()` is the same test
-        CN = ("cmp", "<", CN[3], CN[2])
+    if _has_concat(PER) and not _has_concat(COMB):
+        COMB, PER = PER, COMB
+        if CN[0] == "cmp" and CN[1] in ("<", "<=", ">", ">="):
+            CN = ("cmp", {"<": ">=", ">=": "<", ">": "<=", "<=": ">"}[CN[1]], CN[2], CN[3])
+        else:
+            CN = ("un", "not", CN)
+    if CN[0] == "cmp" and CN[1] in (">", ">="):  # `min(10, n) > counts.min()` is the same test as `counts.min() < min(10, n)`
+        CN = ("cmp", {">": "<", ">=": "<="}[CN[1]], CN[3], CN[2])
     COND = CN
     okc = CN[0] == "cmp" and CN[1] == "<" and CN[3] in (T, ("call", ("global", "min"), (ncal, ("const", 10)), ())) and CN[2][0] == "call" \
         and ir.show(CN[2][1]).endswith("min") and CN[2][2][0][0] == "sub" and CN[2][2][0][2] == ("const", "n")
@@ -394,9 +404,9 @@ def check(ctx):
             # remaining models: rows of the model table whose last i key levels are null, those key columns dropped
             rm = RM
             okrm = False
-            if rm[0] == "mut" and rm[2] == "drop":
-                last_i = dict(rm[4]).get("columns")
-                src = rm[1]
+            if rm[0] == "call" and rm[1][0] == "attr" and rm[1][2] == "drop":
+                last_i = dict(rm[3]).get("columns")
+                src = rm[1][1]
                 while src[0] == "call" and src[1][0] == "attr" and src[1][2] == "reset_index":
                     src = src[1][1]
                 okslice = last_i is not None and last_i[0] == "sub" and last_i[1] == AGG and slice_is(last_i[2], "n - i", None)
